@@ -288,4 +288,6 @@ class StringLiteral(BaseType):
     def _repr_literals(self):
         if self._overflow:
             return '...'
-        return ','.join(self._literals)
+        # Sorted and quoted: the text is also the de-duplication token, so it must not depend on set order
+        # and must tell {"a,b"} from {"a", "b"}
+        return ','.join(sorted(map(repr, self._literals)))
